@@ -28,7 +28,7 @@ CalendarAgrees ==
     LET in == Ev.inp IN
     /\ AbsDay(in.T) = Ev.tord
     /\ \A i \in DOMAIN in.lines : in.lines[i].has =>
-          AbsDay(At(IF in.hy THEN in.lines[i].y ELSE in.T.y, in.lines[i])) = Ev.ords[i]
+          AbsDay(At(IF in.lines[i].y # 0 THEN in.lines[i].y ELSE in.T.y, in.lines[i])) = Ev.ords[i]
 
 Accepts ==
     CASE Ev.ev = "cmd"    -> Ev.outcome = CmdRef(CmdIn).outcome /\ Ev.seen = CmdRef(CmdIn).seen
@@ -77,21 +77,27 @@ DiagSearch ==
 LineKind(in, i) ==
     LET ln == in.lines[i] IN
     IF ~ln.has THEN "continuation"
-    ELSE LET e == Eff(ln, in.T, in.hy) IN
+    ELSE LET e == Eff(ln, in.T)  yl == ln.y = 0 IN
          (IF Key(e) = Key(in.T) THEN "stamp-equal" ELSE IF Key(e) > Key(in.T) THEN "stamp-after" ELSE "stamp-before")
-         \o (IF e.y < in.T.y /\ ~in.hy THEN "-previous-year" ELSE IF e.y > in.T.y /\ ~in.hy THEN "-next-year" ELSE "")
-         \o (IF ~in.hy /\ e.y # in.T.y /\ (Leap(e.y) \/ Leap(in.T.y)) THEN "-leap-year" ELSE "")
+         \o (IF e.y < in.T.y /\ yl THEN "-previous-year" ELSE IF e.y > in.T.y /\ yl THEN "-next-year" ELSE "")
+         \o (IF yl /\ e.y # in.T.y /\ (Leap(e.y) \/ Leap(in.T.y)) THEN "-leap-year" ELSE "")
+         \* a stamp that carries a year other than the one the year inference would give it (mixed format lists)
+         \o (IF in.mx /\ ~yl /\ ln.y # InferYear(ln, in.T) THEN "-explicit-year-not-inferred" ELSE "")
+MinOf(S) == CHOOSE x \in S : \A z \in S : x <= z
 
 DiagAfter ==
     LET in == Ev.inp  ref == AfterRef(in)
-        feat == B(in.hy, ":with-year", ":without-year") \o B(in.filt, ":filtered", "") IN
+        feat == (IF in.mx THEN ":mixed-formats" ELSE B(in.hy, ":with-year", ":without-year")) \o B(in.filt, ":filtered", "")
+        miss == {x \in Rng(ref) : x \notin Rng(Ev.res)}
+        extra == {x \in Rng(Ev.res) : x \notin Rng(ref)} IN
     IF ~AdmitsLog(in) THEN "machinery:log-not-admitted"
     ELSE IF ~CalendarAgrees THEN "machinery:calendar-disagrees-with-datetime"
     ELSE IF Ev.exc # "" THEN "AfterExact" \o feat \o ":exception"
-    ELSE IF \E x \in Rng(ref) : x \notin Rng(Ev.res)
-      THEN "AfterExact" \o feat \o ":missing:" \o LineKind(in, CHOOSE x \in Rng(ref) : x \notin Rng(Ev.res))
-    ELSE IF \E x \in Rng(Ev.res) : x \notin Rng(ref)
-      THEN LET x == CHOOSE x \in Rng(Ev.res) : x \notin Rng(ref) IN
+    \* the first line (in log order) on which observation and reference differ
+    ELSE IF miss # {} /\ (extra = {} \/ MinOf(miss) < MinOf(extra))
+      THEN "AfterExact" \o feat \o ":missing:" \o LineKind(in, MinOf(miss))
+    ELSE IF extra # {}
+      THEN LET x == MinOf(extra) IN
            "AfterExact" \o feat \o ":extra:" \o (IF x \in DOMAIN in.lines THEN LineKind(in, x) ELSE "unknown-line")
     ELSE "AfterExact" \o feat \o ":order"
 
